@@ -311,8 +311,8 @@ PlacedWhereAsked == [][
     ]_allvars
 \* stationary blocks keep their core position through every shuffle
 StationaryStay == [][act'.n \in {"Swap", "Cascade", "DischargeSwap"} =>
-    \A b \in RealBlk : (TypeOf(b) \in sflags /\ loc[OwnerIn(blocks, b)] # 0)
-                        => loc'[OwnerIn(blocks', b)] = loc[OwnerIn(blocks, b)]]_allvars
+    \A a \in InCore : \A k \in StatPosIn(blocks, a) :
+        \E a2 \in Rng(children') : loc'[a2] = loc[a] /\ k <= Len(blocks'[a2]) /\ blocks'[a2][k] = blocks[a][k]]_allvars
 \* R3: refusals change nothing (an aborted cascade is the documented exception, see header)
 RefusalsChangeNothing == [][(err' = "refused" /\ act'.n # "Cascade") => UNCHANGED vars]_allvars
 \* discharge with tracking goes to the pool, everything else that leaves the core is purged
